@@ -2,9 +2,9 @@ package props
 
 import (
 	"bytes"
-	"io"
 	"encoding/hex"
 	"fmt"
+	"io"
 
 	"github.com/IBM/fluent-forward-go/fluent/protocol"
 	"github.com/tinylib/msgp/msgp"
